@@ -203,7 +203,15 @@ def run(tier, seed, rng):
     build_config(res, 'no_std', nostd, runner.Workspace('c19nostd', features=('derive',), default_features=False, target_key='nostd'),
                  lambda e, k: NoStdGen(e), '#![no_std]\n#![allow(warnings)]')
     paths = ['strum2', 'crate::reexport::inner', 'st']
-    build_config(res, 'renamed', especs, runner.Workspace('c19ren', dep_name='strum2', target_key='std'),
+    from . import c16 as _c16
+    import copy as _copy
+    phf_enums = []
+    for e in _c16.special_enums():
+        t = _copy.deepcopy(e)
+        t.id, t.name, t.phf = 'c19' + e.id[3:] + 'p', 'EnC19' + e.name[5:] + 'P', True
+        t.extra['from'] = 'C16'
+        phf_enums.append(t)
+    build_config(res, 'renamed', especs + phf_enums, runner.Workspace('c19ren', dep_name='strum2', features=('derive', 'phf'), target_key='std'),
                  lambda e, k: LocalNameDefs(e, 'st') if (k + len(e.derives)) % 3 == 2 else PlainDefs(e, paths[(k + len(e.derives)) % 3]), '#![allow(warnings)]', extra_main='pub mod reexport { pub use strum2 as inner; }')
     build_config(res, 'shadowed', especs, runner.Workspace('c19shadow', target_key='std'),
                  lambda e, k: ShadowDefs(e), '#![allow(warnings)]')
